@@ -302,6 +302,45 @@ pub enum NextItem {
     EndFile,
 }
 
+/// The grammar recurses once per nested parenthesis or prefix operator
+const MAX_NESTING: usize = 256;
+
+/// Tells whether an expression on the line is nested deeper than MAX_NESTING levels; such a line
+/// is not handed to the grammar, it would exhaust the stack
+fn nested_too_deep(line: &str) -> bool {
+    let mut depth = 0usize;
+    let mut run = 0usize;
+    let mut in_string = false;
+    let mut previous = ' ';
+    for c in line.chars() {
+        if in_string {
+            in_string = c != '"';
+        } else {
+            match c {
+                '"' => in_string = true,
+                ';' => break,
+                '/' if previous == '/' => break,
+                '(' => {
+                    depth += 1;
+                    run += 1;
+                }
+                ')' => {
+                    depth = depth.saturating_sub(1);
+                    run = 0;
+                }
+                '-' | '!' | '~' => run += 1,
+                ' ' | '\t' => {}
+                _ => run = 0,
+            }
+            if depth > MAX_NESTING || run > MAX_NESTING {
+                return true;
+            }
+        }
+        previous = c;
+    }
+    false
+}
+
 fn skip<'a>(
     iter: &mut dyn Iterator<Item = (usize, &'a str)>,
     context: &ParseContext,
@@ -319,6 +358,10 @@ fn skip<'a>(
                 let name = context.macros.name.borrow().clone();
                 let mut items = vec![];
                 while let Some((line_num, line)) = iter.next() {
+                    if nested_too_deep(line) {
+                        items.push((CodePoint { line_num, num: 3 }, line.to_string()));
+                        continue;
+                    }
                     if let Ok(item) = document::line(line) {
                         if let Document::DirectiveLine(_, directive, _) = item {
                             if other == NextItem::EndMacro && directive == Directive::EndMacro
@@ -334,6 +377,9 @@ fn skip<'a>(
                 context.macros.macroses.borrow_mut().insert(name, items);
             } else {
                 while let Some((num, line)) = iter.next() {
+                    if nested_too_deep(line) {
+                        continue;
+                    }
                     if let Ok(item) = document::line(line) {
                         if let Document::DirectiveLine(_, directive, _) = item {
                             if other == NextItem::EndIf || other == NextItem::EndIfAll {
@@ -394,6 +440,13 @@ pub fn parse_iter<'a>(
         if let Some((line_num, line)) = skip(iter, context, next_item, &mut pending_elif) {
             next_item = NextItem::NewLine; // clear conditional flag to typical state
             let line_num = line_num + 1;
+            if nested_too_deep(line) {
+                bail!(
+                    "failed to parse {}: expression nested deeper than {} levels",
+                    CodePoint { line_num, num: 1 },
+                    MAX_NESTING
+                );
+            }
             let parsed_item = document::line(line);
             if let Ok(item) = parsed_item {
                 match item {
